@@ -53,6 +53,7 @@ REL = 1e-9          # mass, centre of mass, principal moments, exact polyhedra (
 # (rotation angle < 1.5e-6) or the off-diagonal element is below 1e-12 absolute: measured <= ~2e-6 relative
 REL_RECON = 5e-5
 ABS_RECON = 1e-10
+ABS_MOMENT = 1e-11   # absolute termination threshold kEigEPS = 1e-12 of mjuu_eig3, x10
 
 
 def fb(x):
@@ -331,7 +332,8 @@ class Oracle:
         self.ctx = ctx
         self.nfail = 0
         self.checked = 0
-        self.maxdev = {"mass": 0.0, "com": 0.0, "moments": 0.0, "reconstruct": 0.0, "unit_iquat": 0.0, "mesh_exact": 0.0}
+        self.maxdev = {"mass": 0.0, "com": 0.0, "moments": 0.0, "reconstruct": 0.0, "unit_iquat": 0.0, "mesh_exact": 0.0,
+                       "moments_individual": 0.0}
 
     def fail(self, key, what, replay):
         self.nfail += 1
@@ -397,11 +399,22 @@ class Oracle:
                 return self.fail(label + ":com", "body_ipos %r differs from the centre of mass %r" % (ipos, com), rp)
             tr = T[0][0] + T[1][1] + T[2][2]
             ev = eigvals_sym3(T)
-            dm = max(abs(a - b) for a, b in zip(sorted(I, reverse=True), ev)) / tr
-            self.dev("moments", dm) if not has_eshell else None
-            if dm > (1e-3 if has_eshell else rel):
+            # mjuu_eig3 stops as soon as the LARGEST off-diagonal element needs a rotation with cos > 1 - 1e-12 (or is below
+            # 1e-12 absolute), so smaller off-diagonal elements between nearly equal moments may stay: individual stored
+            # moments are only accurate to ~1e-6 relative in near-degenerate cases (observed 2.4e-10).  What holds to rounding
+            # for ANY orthogonal frame is the trace, and the Frobenius norm up to the square of the residual:
+            dtr = abs(sum(I) - tr) / (tr + ABS_MOMENT / REL)
+            fro = sum(T[i][j] ** 2 for i in range(3) for j in range(3))
+            dfro = abs(sum(x * x for x in I) - fro) / (fro + (ABS_MOMENT / REL) ** 2)
+            dm = max(abs(a - b) for a, b in zip(sorted(I, reverse=True), ev)) / (tr + ABS_MOMENT / REL)
+            if not has_eshell:
+                self.dev("moments", max(dtr, dfro))
+                self.dev("moments_individual", dm)
+            if max(dtr, dfro) > (1e-3 if has_eshell else rel):
+                return self.fail(label + ":moments", "trace / Frobenius norm of body_inertia %r differ from those of the parallel-axis sum (eigenvalues %r)" % (I, ev), rp)
+            if dm > (1e-3 if has_eshell else REL_RECON):
                 return self.fail(label + ":moments", "body_inertia %r differs from the eigenvalues %r of the parallel-axis sum" % (I, ev), rp)
-            if not (I[0] >= I[1] - 1e-12 * tr and I[1] >= I[2] - 1e-12 * tr):
+            if not (I[0] >= I[1] - 1e-12 * tr - 2e-12 and I[1] >= I[2] - 1e-12 * tr - 2e-12):   # the sort swaps only beyond kEigEPS = 1e-12 absolute
                 return self.fail(label + ":order", "principal moments not in decreasing order: %r" % (I,), rp)
             nq = abs(sum(x * x for x in iquat) - 1)
             self.dev("unit_iquat", nq)
@@ -703,7 +716,7 @@ def run(ctx):
     ctx.extra["oracle_failures"] = orc.nfail
     ctx.extra["max_relative_deviation"] = {k: float("%.3g" % v) for k, v in orc.maxdev.items()}
     ctx.extra["tolerances"] = {"mass/com/moments/exact-mesh": REL, "reconstruct_rel": REL_RECON, "reconstruct_abs": ABS_RECON,
-                               "ellipsoid_shell_inertia": 1e-4, "thomsen_area": 0.015}
+                               "moments_abs": ABS_MOMENT, "ellipsoid_shell_inertia": 1e-4, "thomsen_area": 0.015}
     i = next((k for k, l in enumerate(lines) if l.startswith("body 3")), 0)
     ctx.sample({"op": lines[i][:400], "impl_and_model_output": outs[i]})
     ctx.sample({"op": lines[0], "impl_and_model_output": outs[0]})
